@@ -359,7 +359,41 @@ class Prov:
 
     def place(self, pl, strip=True):
         base = self.local(pl["l"], strip)
-        return self._project(base, pl["p"], strip)
+        projs = pl["p"]
+        # struct local whose field is (re)assigned separately: `tx.input = ...`
+        if projs and isinstance(projs[0], dict) and "f" in projs[0]:
+            alts = self._field_assigns(pl["l"], projs[0]["f"], strip)
+            if alts:
+                first = self._project(base, projs[:1], strip)
+                cands = []
+                if not (first[0] == "fld" and first[1][0] in ("partial", "undef")):
+                    cands.append(first)
+                for a in alts:
+                    if a not in cands:
+                        cands.append(a)
+                t = cands[0] if len(cands) == 1 else ("phi", tuple(cands))
+                return self._project(t, projs[1:], strip)
+        return self._project(base, projs, strip)
+
+    def lplace(self, pl, strip=True):
+        """a place as an assignment target (no value expansion of reassigned fields)"""
+        return self._project(self.local(pl["l"], strip), pl["p"], strip)
+
+    def _field_assigns(self, l, fname, strip):
+        key = ("fa", l, fname, strip)
+        if key in self.memo:
+            return self.memo[key] or []
+        self.memo[key] = None
+        out = []
+        for (bi, si, kind, payload) in self.b.defs().get(l, []):
+            if self.b.blocks[bi]["cleanup"]:
+                continue
+            pl = payload["pl"] if kind == "assign" else payload.get("dest")
+            if not pl or len(pl["p"]) != 1 or not isinstance(pl["p"][0], dict) or pl["p"][0].get("f") != fname:
+                continue
+            out.append(self._rvalue(payload["rv"], strip) if kind == "assign" else self._call(payload, strip))
+        self.memo[key] = out
+        return out
 
     def _project(self, base, projs, strip):
         t = base
@@ -493,7 +527,7 @@ class Prov:
             d = t.get("dest")
             tag = None
             if d is not None and not d["p"]:
-                tag = self.b.local_name(d["l"]) or "_%d" % d["l"]
+                tag = "%s#%d" % (self.b.local_name(d["l"]) or "", d["l"])
             return ("call", name, args, t.get("self_ty"), tag)
         return ("call", name, args, t.get("self_ty"))
 
